@@ -54,7 +54,7 @@ def handshake_delay_scenario(r, it, tier):
 
 def idle_scenario(r, it, tier):
     sim = EpSim(r, inter=it)
-    T = r.pick([8000, 20000]); K = r.pick([1000, 2500, 5000])
+    T = r.pick([6000, 8000, 20000]); K = r.pick([1000, 2000, 2500, 5000])
     cfg = dict(DEFAULT_EP, timeout=T, ka=1, kams=K)
     sim.srv(8, 8, 1, cfg)
     lat = r.pick([0, 20_000_000, 200_000_000])
@@ -64,11 +64,19 @@ def idle_scenario(r, it, tier):
     sim.dt = dt
     sim.cli(0, cfg, nets)
     sent = [0]
+    both = r.chance(2, 3)        # data in both directions first: both senders have a feedback history when the idle period starts
     def actions(sim):
+        sim.op("cget 0"); sim.op("sget 0")          # RTT estimates of both sides, every tick (for the F21 classification)
         if sent[0] < 3 and r.chance(1, 10):
             sim.send("c", 0, 0, 3, 100); sent[0] += 1
+            if both:
+                sim.send("s", 0, 0, 3, 100)
     sim.run(int(90_000_000_000 // dt), dt, nets, actions)
     sim.expect_no_timeout = (max(K, 2000, 600) + 2 * lat // 10**6 + 2 * dt // 10**6 + 1000) < T
+    # Known finding F21: a keepalive frame is only sent once max(RTO, 2 s) has elapsed as well, and RTO = 4 x RTT estimate, where the
+    # RTT seen by an endpoint includes two step intervals of each side: with a slow step cadence the keepalives come too late
+    sim.rto_bound_ms = (max(4 * (3 * dt + 2 * lat), K * 10**6) + lat) // 10**6      # worst case: a frame is handled one step after it arrived on either side
+    sim.keepalive_T = T; sim.keepalive_K = K; sim.lat_ns = lat
     return sim
 
 def early_disconnect_scenario(r, it, tier):
@@ -136,10 +144,33 @@ def signature(ops, outs):
         return None
     return (evs, ops[1][:30], min(len(ops) // 300, 8))
 
+def f21_cause(sim, ops, outs, victim_side, te):
+    """keepalive_held_back_by_rto iff the keepalive SENDER's own RTT estimate justifies a sync timeout (4 x RTT) that, together with the
+    delivery delay, does not fit into the victim's active timeout."""
+    import struct
+    getop = "sget" if victim_side == "c" else "cget"          # the victim's peer sends the keepalives
+    t = 0; rtt = None
+    for op, o in zip(ops, outs):
+        w = op.split(" ")
+        if w[0] == "t":
+            t = int(w[1])
+            if t > te: break
+        elif w[0] == getop and "rtt=" in o:
+            v = o.split("rtt=")[1].split(" ")[0]
+            if v != "-":
+                rtt = struct.unpack(">d", struct.pack(">Q", int(v)))[0]
+    if rtt is None:
+        return "other"
+    # the documented restriction "keepalive frames are not sent faster than the connection RTO or 2 s, whichever is longer" is in
+    # force (rather than the 2 s floor) once 4 x RTT estimate exceeds 2 s, i.e. with RTT estimates of 0.5 s and more (slow step
+    # cadences, long links); RTO = max(4 x RTT, 2 x MSS / send rate) then exceeds the active timeout on quiet connections
+    return "keepalive_held_back_by_rto" if 4.0 * rtt * 1000.0 >= 2000.0 else "other"
+
 def oracle(stream, cid, ops, outs):
     fails = E.trap_failures(ops, outs)
     sim = stream["meta"][cid]
     sev, cev, log, delivered, calls = E.replay(ops, outs)
+    attributed = set()      # (client, time) of timeouts already explained by the known finding F9 (same event, not reported twice)
     step_times = {}
     time = 0
     for op in ops:
@@ -167,6 +198,8 @@ def oracle(stream, cid, ops, outs):
                     # after the connect() call rather than after the handshake completed
                     t0 = next((t for (t, w, q) in calls if w == "connect" and q == i), 0)
                     cause = "deadline_counted_from_connect_call" if (all(t == tc for t in rx if t <= te) and te >= t0 + T) else "other"
+                    if cause != "other":
+                        attributed.add((i, te))
                     fails.append({"oracle": "timeout_sound", "detail": "client %d: Error(Timeout) at %d ms although a frame was received at %d ms (active_timeout %d ms, connected at %d ms)" %
                                   (i, te // 10**6, max(recent) // 10**6, T // 10**6, tc // 10**6), "signature": {"oracle": "timeout_sound", "side": "client", "cause": cause}})
             for s in step_times.get(i, []):
@@ -177,9 +210,10 @@ def oracle(stream, cid, ops, outs):
                     fails.append({"oracle": "timeout_prompt", "detail": "client %d: still active after the step at %d ms, last frame at %d ms, active_timeout %d ms" %
                                   (i, s // 10**6, last // 10**6, T // 10**6), "signature": {"oracle": "timeout_prompt", "side": "client"}})
                     break
-            if getattr(sim, "expect_no_timeout", False) and term and term[1] == "E":
-                fails.append({"oracle": "keepalive", "detail": "client %d: Error(%s) at %d ms on an idle loss-free keepalive connection" % (i, term[2], term[0] // 10**6),
-                              "signature": {"oracle": "keepalive"}})
+            if getattr(sim, "expect_no_timeout", False) and term and term[1] == "E" and (i, term[0]) not in attributed:
+                cause = f21_cause(sim, ops, outs, "c", term[0])
+                fails.append({"oracle": "keepalive", "detail": "client %d: Error(%s) at %d ms on an idle loss-free keepalive connection (step cadence %d ms, 4 x RTT >= %d ms, active_timeout %d ms)" %
+                              (i, term[2], term[0] // 10**6, sim.dt // 10**6, getattr(sim, "rto_bound_ms", 0), sim.keepalive_T), "signature": {"oracle": "keepalive", "cause": cause}})
         else:
             # never connected: a handshake timeout needs 1 + 10 SYNs and >= 22 s
             if term and term[1] == "E" and term[2] == "Timeout":
@@ -227,8 +261,9 @@ def oracle(stream, cid, ops, outs):
                 break
     if getattr(sim, "expect_no_timeout", False):
         for (t, tag, p, x) in sev:
-            if tag == "E":
-                fails.append({"oracle": "keepalive", "detail": "server: Error(%s) for peer %d at %d ms on an idle loss-free keepalive connection" % (x, p, t // 10**6),
-                              "signature": {"oracle": "keepalive"}})
+            if tag == "E" and not any(q == p for (q, _) in attributed):
+                cause = f21_cause(sim, ops, outs, "s", t)
+                fails.append({"oracle": "keepalive", "detail": "server: Error(%s) for peer %d at %d ms on an idle loss-free keepalive connection (step cadence %d ms, active_timeout %d ms)" % (x, p, t // 10**6, sim.dt // 10**6, sim.keepalive_T),
+                              "signature": {"oracle": "keepalive", "cause": cause}})
                 break
     return fails
